@@ -355,3 +355,39 @@ func VerifC11TwoNodes() {
 		verifrt.Assert(err2 == nil, "caller-2-gets-its-own-outcome")
 	}
 }
+
+// VerifC11Timeout: the relative timing of a caller's deadline and the apply of
+// its own entry. Caller 1 proposes; the apply goroutine applies the entry; the
+// caller's deadline (the real 5 s proposal timeout) may expire at any scheduling
+// point in between (verifrt.TimersRacy), so the caller may see its outcome, or a
+// timeout while the outcome is on its way. Afterwards caller 2 removes an id that
+// was never stored: its answer must be "not found" (or an error of its own), never
+// the outcome of somebody else's proposal.
+func VerifC11Timeout() {
+	verifrt.RaceDetect(verifrt.Bound("race", 0) == 1)
+	verifrt.Preemptions(verifrt.Bound("preempt", 2))
+	verifrt.TimersRacy(true)
+	cfg := verifIdxConfigs()[0]
+	p, node := verifRaftPartition(1, cfg)
+	applyDone := make(chan struct{})
+	go func() {
+		for i := 0; i < 2; i++ {
+			pr := <-node.proposals
+			if err := p.process(pr.data); err != nil {
+				verifrt.Assert(false, "apply-never-fails")
+			}
+		}
+		close(applyDone)
+	}()
+	ctx := context.Background()
+	err1 := p.insert(ctx, verifItemId(0), []float32{2}, nil)
+	if err1 != nil {
+		verifrt.Tag("first-caller-timed-out")
+	}
+	verifrt.Assert(err1 == nil || err1 == context.DeadlineExceeded, "first-caller-gets-its-outcome-or-a-timeout")
+	err2 := p.remove(ctx, verifItemId(1))
+	verifrt.Assert(err2 != nil, "remove-of-an-unknown-id-is-never-acknowledged")
+	verifrt.Assert(err2 == index.ItemNotFoundError || err2 == context.DeadlineExceeded, "second-caller-gets-its-own-outcome")
+	verifrt.Quiesce()
+	verifrt.Reach("timeout-end")
+}
